@@ -1,3 +1,4 @@
 -- Root of the library: every property file (which pulls in the models it is about).
+import Resvg.Props.C02
 import Resvg.Props.C16
 import Resvg.Props.C17
